@@ -2,7 +2,7 @@
 From Coq Require Import Sorted.
 Require Import Riti.model.Base Riti.model.Chars Riti.model.Split Riti.model.Rank Riti.model.Layout Riti.model.Phonetic
         Riti.model.FixedCompose Riti.model.FixedSuggest Riti.gen.Gen_Tables Riti.model.TestOracle
-        Riti.proofs.Rank_Proof Riti.proofs.Lists_Proof Riti.proofs.Fixed_Proof.
+        Riti.proofs.Rank_Proof Riti.proofs.Lists_Proof Riti.proofs.Order_Proof Riti.proofs.Fixed_Proof.
 
 (** For EVERY dictionary, emoji table, option set, composed text and raw key text: *)
 Theorem C15_first_is_composed_text :
@@ -26,6 +26,17 @@ Theorem C15_sorted :
     let '(l, cut, _) := dictionary_suggestion_parts Q c buffer typed in StronglySorted key_le (firstn cut l).
 Proof. exact ds_sorted. Qed.
 
+(** read position-wise: of two dictionary candidates the earlier one has the smaller (or equal) edit distance from the typed word *)
+Theorem C15_non_decreasing_distance :
+  forall (Q : oracles) c buffer typed i j a d1 b d2,
+    let '(l, cut, _) := dictionary_suggestion_parts Q c buffer typed in
+    (i < j)%nat -> nth_error (firstn cut l) i = Some (ROther a d1) -> nth_error (firstn cut l) j = Some (ROther b d2) -> d1 <= d2.
+Proof.
+  intros Q c buffer typed i j a d1 b d2. pose proof (ds_sorted Q c buffer typed) as S.
+  destruct (dictionary_suggestion_parts Q c buffer typed) as [[l cut] tl]. intros Hij Hi Hj.
+  destruct (order_consequences _ S) as (H & _). eapply H; eauto.
+Qed.
+
 Theorem C15_english_last :
   forall (Q : oracles) c buffer typed, x_english_on c = true -> str_eqb buffer typed = false ->
     last (dictionary_suggestion Q c buffer typed) (RFirst []) = RLast typed 1.
@@ -43,3 +54,4 @@ Proof. vm_compute. reflexivity. Qed.
 Print Assumptions C15_first_is_composed_text.
 Print Assumptions C15_candidates_classified.
 Print Assumptions C15_sorted.
+Print Assumptions C15_non_decreasing_distance.
